@@ -178,7 +178,9 @@ func (c *Case) c01Docs() []*xdoc.Doc {
 	// wide documents (fan-out 11-12 of same-named siblings on several levels): sibling positions with two digits
 	docs = append(docs, c.docPool("digit", 2, func(g *xgen.G) *xdoc.Doc { return g.DigitTree() })...)
 	// narrow documents 10-33 levels deep
-	return append(docs, c.docPool("deep", 2, func(g *xgen.G) *xdoc.Doc { return g.DeepTree() })...)
+	docs = append(docs, c.docPool("deep", 2, func(g *xgen.G) *xdoc.Doc { return g.DeepTree() })...)
+	// text and comment nodes whose data is an element name, reported as LocalName() by the navigator
+	return append(docs, c.docPool("namelike", 3, func(g *xgen.G) *xdoc.Doc { return g.NameLikeTree(xgen.Names) })...)
 }
 
 // recordShape counts the iterator types of the compiled query (coverage evidence).
